@@ -45,7 +45,7 @@ func init() { Register(c14{}) }
 func (c14) ID() string { return "C14" }
 
 func (c14) Rule() string {
-	return "each run = a cluster of 1-3 real nodes populated through the normal API (1-2 users, 1-2 collections, several shards per collection through a small per-shard cap, optional padding so that shard files differ in size), stopped, and restarted with a different server list (grow, shrink, replace, permute): every node that holds data and every new node runs the real start-up Sync() concurrently over the simulated transport, with the chunk size knob set to the shard file size, half, double, a small value or an odd value. Faults per plan, hitting the chunk RPC of a shard transfer at a chosen chunk index: connection reset before / after execution, clean error, stall beyond the RPC timeout (retry => duplicate chunk), kill of the receiver before / after the chunk, kill of the sender, short write followed by a kill of the receiver. Killed nodes are restarted on their files and rounds of Sync() repeat until a fault-free round has completed (at most 5). Oracle: at every removal of a shard directory by the synchronisation, the designated owner already holds a byte-identical copy of the original file (file-system hook); after every round no collection record and no shard is absent from all nodes; after the fault-free round every record and shard file lives exactly on RendezvousHash(key, new servers), byte-identical to the original, nowhere else; every stored point is readable with its document through every node of the new list; the fault-free round completes within 10 simulated minutes. Non-trivial: >= 1 shard file and >= 1 record had to move. Distinct: (trace hash, placement)."
+	return "each run = a cluster of 1-3 real nodes populated through the normal API (1-2 users, 1-2 collections, several shards per collection through a small per-shard cap, optional padding so that shard files differ in size), stopped, and restarted with a different server list (grow, shrink, replace, permute): every node that holds data and every new node runs the real start-up Sync() concurrently over the simulated transport, with the chunk size knob set to the shard file size, half, double, a small value or an odd value. Faults per plan, hitting the chunk RPC of a shard transfer at a chosen chunk index: connection reset before / after execution, clean error, stall beyond the RPC timeout (retry => duplicate chunk), kill of the receiver before / after the chunk, kill of the sender, short write followed by a kill of the receiver. Killed nodes are restarted on their files and rounds of Sync() repeat until a round in which every node's Sync() reported success (at most 5; with or without a fault in it: a fault absorbed by retries still has to leave the final placement). Oracle: at every removal of a shard directory by the synchronisation, the designated owner already holds a byte-identical copy of the original file (file-system hook); after every round no collection record and no shard is absent from all nodes; after the first round in which every Sync() reported success every record and shard file lives exactly on RendezvousHash(key, new servers), byte-identical to the original, nowhere else; every stored point is readable with its document through every node of the new list; the fault-free round completes within 10 simulated minutes. Non-trivial: >= 1 shard file and >= 1 record had to move. Distinct: (trace hash, placement)."
 }
 
 func (c14) Generate(r *rand.Rand, tier string) (sim.Config, any) {
@@ -421,9 +421,14 @@ func (c14) Execute(env *Env) {
 			if !c14NothingLost(env, w, orig, fmt.Sprintf("after round %d", round)) {
 				return
 			}
-			if !anyKilled && !anyErr && !fired {
+			if !anyKilled && !anyErr {
+				// every node's Sync() reported success (a fault of this round, if any, was
+				// absorbed by retries): the move is claimed to be complete, so the final
+				// placement is demanded now, whether or not a fault fired
 				fresh = true
-				if d := time.Since(t0); d > 10*time.Minute+40*time.Second {
+				if fired {
+					env.Stat("rounds-succeeding-despite-a-fault", 1)
+				} else if d := time.Since(t0); d > 10*time.Minute+40*time.Second {
 					env.Violate("liveness", "sync-too-slow", "the fault-free round took %v of simulated time", d)
 					return
 				}
